@@ -76,7 +76,13 @@ ReplyRR(t) == <<
   (* 22 *) [RRname(o12, TYPE_CNAME, CLASS_IN, 50, <<L(ef), P(12)>>) EXCEPT !.rl = 3],   \* lying RDLENGTH
   (* 23 *) RRname(o12, TYPE_PTR, CLASS_IN, 77, <<L(ef), P(QEnd(t) + 60)>>),           \* PTR target through a forward pointer
   (* 24 *) RRraw(o12, TYPE_AAAA, CLASS_IN, 9, <<1, 2, 3, 4>>),                       \* 4-byte AAAA
-  (* 25 *) [RRraw(o12, TYPE_A, CLASS_IN, 33, A1) EXCEPT !.rl = 400]                  \* RDLENGTH beyond the message
+  (* 25 *) [RRraw(o12, TYPE_A, CLASS_IN, 33, A1) EXCEPT !.rl = 400],                 \* RDLENGTH beyond the message
+  (* one RR carrying several addresses: RDLENGTH 4*k / 16*k, crossing the 255-byte and 16*ANCOUNT sizes of the reply buffer *)
+  (* 26 *) RRraw(o12, TYPE_A, CLASS_IN, 41, RepSeq(<<10, 7, 7, 1>>, 64)),             \* 256 bytes
+  (* 27 *) RRraw(o12, TYPE_A, CLASS_IN, 42, RepSeq(<<10, 8, 8, 2>>, 100)),            \* 400 bytes
+  (* 28 *) RRraw(o12, TYPE_AAAA, CLASS_IN, 43, V61 \o V62),                           \* 32 bytes
+  (* 29 *) RRraw(o12, TYPE_AAAA, CLASS_IN, 44, RepSeq(V62, 17)),                      \* 272 bytes
+  (* 30 *) RRraw(o12, TYPE_A, CLASS_IN, 45, RepSeq(<<10, 9, 9, 3>>, 16))              \* 64 bytes
 >>
 ReplyNs == << <<>>, <<RRraw(o12, TYPE_SOA, CLASS_IN, 90, SoaData)>>, <<RRraw(o12, TYPE_SOA, CLASS_IN, 90, <<1, 2>>)>> >>
 ReplyAr == << <<>>, <<RRraw(<<Z>>, TYPE_OPT, 1232, 0, <<>>)>> >>
